@@ -135,9 +135,10 @@ theorem rle_index_bound_partial (L : List UInt8) (idx : Nat) (hidx : idx < L.len
     Model.Ibwt.walkMaxPtr d.tt L.length d.rleIndex < L.length :=
   Lemmas.Ibwt.decode_walk_bound L idx hidx
 
-example : let d := Model.Ibwt.decode false 3 [110, 110, 98, 97, 97, 97]
-      (Model.Ibwt.counts [110, 110, 98, 97, 97, 97])
-    Model.Ibwt.walkMaxPtr d.tt 6 d.rleIndex = 5 ∧ d.tt.map (· >>> 8) = [3, 4, 5, 2, 0, 1] := by
+example :
+    (let d := Model.Ibwt.decode false 3 [110, 110, 98, 97, 97, 97]
+        (Model.Ibwt.counts [110, 110, 98, 97, 97, 97]);
+     Model.Ibwt.walkMaxPtr d.tt 6 d.rleIndex = 5 ∧ d.tt.map (· >>> 8) = [3, 4, 5, 2, 0, 1]) := by
   decide +kernel
 
 end LbzVerif.Props.C08
